@@ -28,7 +28,7 @@ class SearchResult:
 
     def has_same_tags(self, other):
         """Checks if these two results have the same tags/groups by identity(not equality)"""
-        if self.group != other.group:
+        if self.group is not other.group:
             return False
 
         if len(self.tags) != len(other.tags):
